@@ -133,6 +133,8 @@ pub fn cases(tier: Tier) -> Vec<Case> {
     Arm { text: "(a, b) => a * 10 + b", pat: Pat::Tup(vec![Pat::Var("a"), Pat::Var("b")]), guard: Guard::None, body: Body::Lin2("a", 10, "b") },
     Arm { text: "(*, *) => 999", pat: Pat::Tup(vec![Pat::Wild, Pat::Wild]), guard: Guard::None, body: Body::Const(999) },
     Arm { text: "(b, a) => a * 10 + b + 5000", pat: Pat::Tup(vec![Pat::Var("b"), Pat::Var("a")]), guard: Guard::None, body: Body::Lin2("a", 10, "b5000") },
+    // the bare wildcard 'matches anything': also the argument list of a function of two parameters
+    Arm { text: "* => 777", pat: Pat::Wild, guard: Guard::None, body: Body::Const(777) },
   ];
   for sel in ordered_selections(p2.len(), tier.pick(2, 3)) {
     let arms: Vec<Arm> = sel.iter().map(|i| p2[*i].clone()).collect();
@@ -144,7 +146,7 @@ pub fn cases(tier: Tier) -> Vec<Case> {
     }
     calls.push(("g(1)".into(), Expect::MustError));
     calls.push(("g(1, 2, 3)".into(), Expect::MustError));
-    out.push(Case { family: "fn-2arg", def, calls, locus: format!("fn2:{}", sel.iter().map(|i| ["lit-wild", "wild-lit", "repeat", "vars", "wilds", "vars-swapped"][*i]).collect::<Vec<_>>().join(",")) });
+    out.push(Case { family: "fn-2arg", def, calls, locus: format!("fn2:{}", sel.iter().map(|i| ["lit-wild", "wild-lit", "repeat", "vars", "wilds", "vars-swapped", "bare-wild"][*i]).collect::<Vec<_>>().join(",")) });
   }
   // (C) match with guards on a scalar subject
   let p3 = vec![
@@ -347,6 +349,31 @@ pub fn cases(tier: Tier) -> Vec<Case> {
       let deep = tier.pick(2000u64, 100000u64);
       calls.push((format!("st({}u64, 0u64)", deep), Expect::Val((deep * (deep + 1) / 2).to_string())));
       out.push(Case { family: "recursion", def, calls, locus: format!("recursion:tail-accumulator:{}{}", ["wild-base", "named-base"][bi], ["+wild-step", "+named-step", "+renamed-step"][si]) });
+    }
+  }
+  // ---- a literal arm of another numeric kind than the subject (f64 subject / u64 literal and the reverse): such an arm may apply only when
+  // the two numbers are equal - it must never win for a subject it does not equal (0.5 is not 0u64)
+  {
+    let fsub = ["0.0", "0.5", "1.0", "1.5", "2.9", "-0.5", "3.0"];
+    let ulit = [0u64, 1, 2, 3];
+    for (li, l) in ulit.iter().enumerate() {
+      let mut calls = vec![];
+      for (si, sv) in fsub.iter().enumerate() {
+        let equal = sv.parse::<f64>().unwrap() == *l as f64;
+        // equal numbers: either arm is acceptable (cross-kind equality is not fixed by the statement); unequal: the wildcard arm must run
+        let e = if equal { Expect::Unjudged } else { Expect::Val("2".into()) };
+        calls.push((format!("xs{si} := {sv}\nr@ := xs{si}?\n  | {l}u64 => 1\n  | * => 2.", si = si, sv = sv, l = l), e));
+      }
+      out.push(Case { family: "match-cross-kind-literal", def: String::new(), calls, locus: format!("match-cross-kind-literal:f64-subject:u64-literal-{}", li) });
+    }
+    for (li, l) in ["0.5", "1.0", "2.7", "3.0"].iter().enumerate() {
+      let mut calls = vec![];
+      for sv in 0u64..4 {
+        let equal = l.parse::<f64>().unwrap() == sv as f64;
+        let e = if equal { Expect::Unjudged } else { Expect::Val("2".into()) };
+        calls.push((format!("xu{sv} := {sv}u64\nr@ := xu{sv}?\n  | {l} => 1\n  | * => 2.", sv = sv, l = l), e));
+      }
+      out.push(Case { family: "match-cross-kind-literal", def: String::new(), calls, locus: format!("match-cross-kind-literal:u64-subject:f64-literal-{}", li) });
     }
   }
   // ---- arms whose body cannot be evaluated (division by zero, index out of range, overflow) placed after - or before - the arm that wins:
